@@ -9,9 +9,83 @@ RULE = ("stories = hand-picked same-turn/close-window scenarios + (thorough) eve
         "within a story of at least 8 labelled callbacks; distinct by label sequence")
 
 
+def dispatch_by_declared_id(helper):
+    """A frame of every message type api.proto declares (id taken from the (id) option of the compiled descriptor, not from the
+    library's table), plus ids nothing declares, travels through the real frame helper into a real connected APIConnection on
+    which every declared class has one subscriber: each frame reaches exactly the subscriber of the class declared under its id,
+    undeclared ids reach nobody and change nothing. Returns the list of deviations."""
+    import asyncio
+    from vlib import noisesim, simnet
+
+    async def go(loop):
+        from aioesphomeapi import api_options_pb2 as opt
+        from aioesphomeapi import api_pb2 as pb
+        from aioesphomeapi.connection import APIConnection, ConnectionParams, ConnectionState as S
+        from aioesphomeapi.zeroconf import ZeroconfManager
+        declared = {md.GetOptions().Extensions[opt.id]: getattr(pb, n) for n, md in pb.DESCRIPTOR.message_types_by_name.items()
+                    if md.GetOptions().Extensions[opt.id] and md.GetOptions().Extensions[opt.source] != 2}
+        net = simnet.Net(loop)
+        psk = bytes(range(1, 33))
+        params = ConnectionParams(addresses=["10.0.0.1"], port=6053, password=None, client_info="v", keepalive=20.0,
+                                  zeroconf_manager=ZeroconfManager(), noise_psk=noisesim.b64(psk) if helper == "noise" else None, expected_name=None)
+        conn = APIConnection(params, lambda e: None, False, None)
+        seen = []
+        bad = []
+        with net.patched():
+            await conn.start_connection()
+            task = asyncio.ensure_future(conn.finish_connection(login=False))
+            await simnet.drain(loop)
+            tr = net.transports[-1]
+            if helper == "noise":
+                resp = noisesim.Responder(psk, b"dev")
+                hs, _ = resp.handshake_frames(noisesim.split_frames(b"".join(d for _, d in tr.writes))[1][1:])
+                tr.feed(resp.hello_frame() + hs)
+                await simnet.drain(loop)
+                frame = lambda i, p: resp.data_frame(i, p)[0]  # noqa: E731
+            else:
+                frame = simnet.plain_frame
+            tr.feed(frame(2, pb.HelloResponse(api_version_major=1, api_version_minor=10, name="dev").SerializeToString()))
+            await simnet.drain(loop)
+            await task
+            for i, cls in declared.items():
+                conn.add_message_callback(lambda m, cls=cls: seen.append(cls.DESCRIPTOR.name), (cls,))
+            top = max(declared)
+            skip = {5, 7, 36}            # peer requests: answered / closing; covered by the stories
+            ids = [i for i in sorted(declared) if i not in skip] + [0, top + 1, 255, 256 + 10, 256 + 25, 512 + 33, 0x1000 + 26, 65535]
+            for i in ids:
+                del seen[:]
+                n_w = len(tr.writes)
+                tr.feed(frame(i, b""))
+                await simnet.drain(loop)
+                want = [declared[i].DESCRIPTOR.name] if i in declared else []
+                if seen != want or len(tr.writes) != n_w or conn.connection_state is not S.CONNECTED:
+                    bad.append((i, list(seen), want, len(tr.writes) - n_w, conn.connection_state.name))
+                    if conn.connection_state is not S.CONNECTED:
+                        break
+            conn.force_disconnect()
+            await simnet.drain(loop)
+        return bad
+    return simnet.run(go)
+
+
 def run(rep, tier, seed):
     connfamily.run(rep, tier, seed, "C12", VFILE, RULE)
+    for helper in ("plaintext", "noise"):
+        bad = dispatch_by_declared_id(helper)
+        rep.case(("dispatch-by-declared-id", helper), True, sample={"dispatch_by_declared_id": helper, "deviations": bad[:3]})
+        rep.bump("probe:dispatch-by-declared-id")
+        if bad:
+            i, seen, want, wrote, state = bad[0]
+            rep.violation("C12/deliveries", f"{helper} connection, one subscriber per declared message class: a frame with id {i} reached {seen}, api.proto says {want} "
+                          f"({wrote} frame(s) written in response, state {state}); {len(bad)} id(s) deviate", {"kind": "dispatch-by-declared-id", "helper": helper})
 
 
 def replay(path):
+    import json
+    d = json.loads(open(path).read())["replay"]
+    if d.get("kind") == "dispatch-by-declared-id":
+        from vlib import common
+        common.setup_impl_path()
+        print(dispatch_by_declared_id(d["helper"]))
+        return 0
     return connfamily.replay(path, "C12")
